@@ -153,9 +153,11 @@ def outcome_record(out):
 
 def run_patient(api, fn, cap=300_000):
     """api.run, and once more with a long watchdog if only the wall clock fired (machine under load)"""
-    out = api.run(fn, wall=10.0, cap=cap)
+    # (the harness multiplies wall by VERIF_WALL_SCALE, default 6: 18 s, then 120 s; a front-end loop that
+    # executes no hooked step is only seen by this watchdog, so it must not be so long that a hang stalls the run)
+    out = api.run(fn, wall=3.0, cap=cap)
     if out["o"] == "hang" and out.get("why") == "wall clock":
-        out = api.run(fn, wall=180.0, cap=cap)
+        out = api.run(fn, wall=20.0, cap=cap)
     return out
 
 
